@@ -151,7 +151,7 @@ def _term(c, o):
     ticks = write_ticks(c)
     tmap = time_ticks(c, o)
     user_ds = set((o.get("dsids") or {}).values())
-    dss = vlib.coq_list([str(ds_code(o, d)) for d in c["datasets"] if d in (o.get("dsids") or {})])
+    dss = vlib.coq_list([str(ds_code(o, d)) for d in c["datasets"] + c.get("proxies", []) if d in (o.get("dsids") or {})])
     terms = []
     dead = o.get("outcome") != "ok"
     for i, op in enumerate(c["ops"]):
@@ -188,8 +188,8 @@ def _term(c, o):
             terms.append("QHide %d" % ds_code(o, op["ds"]))
             if bad:
                 terms.append("QRelated [] 0 false [] 0 [] %s" % BAD_PAGES)
-        elif k == "httpcont":
-            pass                                    # its pages belong to the httpq op of the same id
+        elif k in ("httpcont", "jscont", "relcont"):
+            pass                                    # its pages belong to the httpq / jsq / relq op of the same id
         elif k == "refkeys":
             ok = [x for x in (oo.get("outkeys") or []) if x[5] in user_ds]
             ik = [x for x in (oo.get("inkeys") or []) if x[5] in user_ds]
@@ -198,20 +198,30 @@ def _term(c, o):
                 terms.append("QKeys [{| r_src := -1; r_time := -1; r_pred := -1; r_tgt := -1; r_del := false; r_ds := -1 |}]")
             else:
                 terms.append("QKeys %s" % vlib.coq_list([key_term(x, tmap, user_ds) for x in ok]))
-        elif k in ("related", "jsquery", "httpq"):
+        elif k in ("related", "jsquery", "httpq", "jsq", "httpat", "relq"):
+            split = None
             oo = dict(oo)
             if k == "jsquery":
                 op = dict(op, limits=[op.get("limit", 0)])
                 if not oo.get("rpages"):
                     oo["rpages"] = [[]]             # PagedQuery does not call back for an empty page
-            if k == "httpq":
-                # POST /query, continued through its continuation tokens by the httpcont op of the same id (possibly later)
+            if k == "httpat":
+                op = dict(op, limits=[op.get("limit", 0)])      # POST /query {continuations built by the driver, pinned to op.at}
+            if k in ("httpq", "jsq", "relq"):
+                # POST /query resp. a transform's PagedQuery, continued through its continuation tokens by the httpcont / jscont
+                # op of the same id (possibly later)
                 op = dict(op, limits=[op.get("limit", 0)])
-                more = [j for j in range(i + 1, len(c["ops"])) if c["ops"][j]["op"] == "httpcont" and c["ops"][j]["id"] == op["id"]]
+                more = [j for j in range(i + 1, len(c["ops"])) if c["ops"][j]["op"] in ("httpcont", "jscont", "relcont") and c["ops"][j]["id"] == op["id"]]
+                dels = [c["ops"][j]["ds"] for j in range(i + 1, more[0] if more else i + 1) if c["ops"][j]["op"] == "delete_ds"]
+                if dels:
+                    # a dataset is deleted between the first page(s) and the continuation: (pages before, dataset)
+                    split = (len(oo.get("rpages") or []), ds_code(o, dels[0]))
                 mo = o["ops"][more[0]] if more and more[0] < len(o.get("ops", [])) else {"err": "no continuation op"}
                 if (mo.get("err") or mo.get("panic")) and not bad:
                     bad = True
                 oo["rpages"] = list(oo.get("rpages") or []) + list(mo.get("rpages") or [])
+                if k == "jsq" and not oo["rpages"]:
+                    oo["rpages"] = [[]]
             at = NOW
             if op.get("at"):
                 at = at_tick(ticks, op["at"])
@@ -227,7 +237,10 @@ def _term(c, o):
                 pages = "(Some %s)" % vlib.coq_list([vlib.coq_list(["(%d, %d, %d)" % (
                     codes.ucode(sc.expand(r["start"], ns)), codes.ucode(sc.expand(r["pred"], ns)), codes.ucode(sc.expand(r["id"], ns)))
                     for r in pg]) for pg in (oo.get("rpages") or [])])
-            terms.append("QRelated %s %d %s %s %d %s %s" % (starts, pred, vlib.coq_bool(op.get("inverse", False)), req, at, lims, pages))
+            if split:
+                terms.append("QSplit %s %d %s %s %s %d %d %s" % (starts, pred, vlib.coq_bool(op.get("inverse", False)), req, lims, split[0], split[1], pages))
+            else:
+                terms.append("QRelated %s %d %s %s %d %s %s" % (starts, pred, vlib.coq_bool(op.get("inverse", False)), req, at, lims, pages))
         else:
             raise ValueError("op kind not handled: " + k)
     return "{| tc_ds := %s; tc_ops := %s |}" % (dss, vlib.coq_list(["\n  " + t for t in terms]))
@@ -257,6 +270,23 @@ def B(ds, *ents):
     return {"op": "batch", "ds": ds, "ents": list(ents)}
 
 
+def ha(starts, pred="*", inverse=False, datasets=None, limit=1, at=None, exact=True, phase=None):
+    """POST /query from the first page on, with continuation tokens the driver pins to the given instant"""
+    op = q(starts, pred, inverse, datasets, (limit,), at, exact, phase)
+    op.pop("limits")
+    op.update(op="httpat", limit=limit)
+    return op
+
+
+def js(sid, start, pred="*", datasets=None, limit=1):
+    """a transform's PagedQuery interrupted after the first page and continued with the tokens added to the same parameter object
+    (outgoing, one start point: the page structure is then determined, see jq)"""
+    op = {"op": "jsq", "id": sid, "starts": [U(start)], "pred": pred if pred == "*" else U(pred), "inverse": False, "limit": limit}
+    if datasets:
+        op["datasets"] = list(datasets)
+    return [op, {"op": "jscont", "id": sid}]
+
+
 def R(ds, first, second, txn=True):
     """forced schedule: writer 1 (a transaction if txn) waits for the dataset lock while writer 2 commits; outcome = second, then first"""
     op = {"op": "race", "ds": ds, "ents": list(first), "second": list(second)}
@@ -283,15 +313,36 @@ def jq(starts, pred="*", inverse=False, datasets=None, limit=0):
     return op
 
 
-def hq(sid, starts, pred="*", inverse=False, datasets=None, limit=1):
-    """POST /query with a page limit, then all continuation requests: two ops sharing the session id"""
+def hq(sid, starts, pred="*", inverse=False, datasets=None, limit=1, resend=False):
+    """POST /query with a page limit, then all continuation requests: two ops sharing the session id.
+    resend: every continuation request is the original query document with the tokens added"""
     op = {"op": "httpq", "id": sid, "starts": [U(s) for s in starts], "pred": pred if pred == "*" else U(pred), "inverse": inverse, "limit": limit}
     if datasets:
         op["datasets"] = list(datasets)
-    return [op, {"op": "httpcont", "id": sid, "limit": limit}]
+    cont = {"op": "httpcont", "id": sid, "limit": limit}
+    if resend:
+        cont["resend"] = True
+    return [op, cont]
+
+
+def rq(sid, starts, pred="*", inverse=False, datasets=None, limit=1):
+    """the same split in two through the store API: first page, then the kept continuation list to the end"""
+    op = {"op": "relq", "id": sid, "starts": [U(s) for s in starts], "pred": pred if pred == "*" else U(pred), "inverse": inverse, "limit": limit}
+    if datasets:
+        op["datasets"] = list(datasets)
+    return [op, {"op": "relcont", "id": sid, "limit": limit}]
+
+
+def around(ops_between, *sessions):
+    """first ops of the sessions, then ops_between, then their continuation ops"""
+    return [s[0] for s in sessions] + list(ops_between) + [s[1] for s in sessions]
 
 
 def witness_cases():
+    return [dict(c, proxies=PROXIES) for c in _witness_cases()]
+
+
+def _witness_cases():
     both = {"r1": "e2", "r2": "e2"}
     return [
         # F03a: two predicates between one pair, one removed: keep r1 -> incoming 0 results, keep r2 -> 2
@@ -320,6 +371,22 @@ def witness_cases():
                                  + [DEL("b"), q(["e1"]), jq(["e1"]), jq(["e2"], inverse=True), jq(["e1"], datasets=["b"]), jq(["e1"], limit=1),
                                     jq(["e2", "e3"], inverse=True), q(["e2"], inverse=True, datasets=["a", "b"])]
                                  + hq("h3", ["e1", "e4", "e2"], limit=1)},
+        # a scope naming a proxy dataset; HTTP continuation tokens pinned exactly at commit times; a transform continuing its PagedQuery
+        {"datasets": DSN, "ops": [B("a", ent("e1", {"r1": ["e2", "e3"]})), B("b", ent("e1", {"r2": "e2"})), B("a", ent("e1", {"r1": "e4"})),
+                                  B("a", ent("e1", {"r1": ["e4", "e3"]})), B("a", ent("e1", {"r1": "e2"})), B("a", ent("e1", {})),
+                                  q(["e1"], datasets=["px"]), q(["e2"], inverse=True, datasets=["px"]), q(["e1"], datasets=["px", "b"]),
+                                  q(["e1"], datasets=["px"], limits=[1]), jq(["e1"], datasets=["px"])]
+                                 + [ha(["e1"], limit=1, at=i) for i in range(6)] + [ha(["e3"], inverse=True, limit=2, at=i) for i in (0, 3, 4)]
+                                 + [ha(["e1", "e2"], datasets=["px"], limit=1)]
+                                 + js("j1", "e1", limit=1)},
+        # continuation tokens carry internal dataset ids: a dataset deleted between two pages is hidden from the later pages;
+        # a client that pages by re-sending its original query document with the tokens added
+        {"datasets": DSN, "ops": [B("a", ent("e1", {"r1": ["e2", "e3"]}), ent("e4", {"r1": "e2"})), B("b", ent("e1", {"r2": ["e3", "e4"]}), ent("e4", {"r2": "e2"}))]
+                                 + hq("h1", ["e1", "e4"], limit=1, resend=True) + hq("h2", ["e2", "e3"], inverse=True, datasets=["a", "b"], limit=2, resend=True)
+                                 + around([DEL("b")], hq("h3", ["e1", "e4"], datasets=["a", "b"], limit=1), rq("s3", ["e1", "e4"], datasets=["a", "b"], limit=1),
+                                          hq("h4", ["e2", "e3", "e4"], inverse=True, datasets=["b", "a", "px"], limit=1, resend=True),
+                                          rq("s4", ["e1"], datasets=["b"], limit=1), rq("s5", ["e1", "e4"], limit=2))
+                                 + [q(["e1"], datasets=["a", "b"])]},
         # a transaction queued behind a batch of the same dataset: commit order must be time order (second, then first)
         {"datasets": DSN, "ops": [B("a", ent("e1", {"r1": "e2"})), R("a", [ent("e1", {"r1": "e4"})], [ent("e1", {"r1": "e3"})]), KEYS,
                                   q(["e1"]), q(["e3"], inverse=True), q(["e4"], inverse=True), q(["e1"], at=1, phase="pre"),
@@ -431,7 +498,8 @@ def gen_history(rng, nw):
     return ops
 
 
-SCOPES = [None, ["a"], ["b"], ["a", "b"], ["zz"], ["a", "zz"]]
+PROXIES = ["px"]        # a proxy dataset: exists, can be named in a scope, has no local data
+SCOPES = [None, ["a"], ["b"], ["a", "b"], ["zz"], ["a", "zz"], ["px"], ["px", "b"]]
 
 
 def all_queries(nw):
@@ -478,12 +546,25 @@ def gen_case(rng, nw, nq, full=False):
     for n in range(2):
         starts = list(IDS)
         rng.shuffle(starts)
-        qs.extend(hq("h%d" % n, starts[:rng.range(2, 4)], rng.choice(["*"] + PREDS), rng.chance(1, 2), rng.choice(SCOPES), rng.choice([1, 1, 2])))
+        qs.extend(hq("h%d" % n, starts[:rng.range(2, 4)], rng.choice(["*"] + PREDS), rng.chance(1, 2), rng.choice(SCOPES), rng.choice([1, 1, 2]),
+                     resend=rng.chance(1, 2)))
     qs.append(jq([rng.choice(IDS)], rng.choice(jpreds), rng.chance(1, 2), rng.choice(SCOPES), rng.choice([0, 1, 2])))
+    qs.extend(js("j0", rng.choice(IDS), rng.choice(jpreds), rng.choice(SCOPES), rng.choice([1, 1, 2])))
+    # HTTP continuation tokens pinned EXACTLY at commit times (19-digit nanosecond instants must survive the token codec)
+    for _ in range(4):
+        qs.append(ha([rng.choice(IDS)], rng.choice(["*"] + PREDS), rng.chance(1, 2), rng.choice(SCOPES[:4] + SCOPES[6:]),
+                     rng.choice([1, 2, 3]), at=rng.choice(widx), exact=True))
     if rng.chance(1, 2):
         # delete one dataset (no garbage collection) and ask again, directly and through the job entry point
         d = rng.choice(DSN)
-        qs.append(DEL(d))
+        # paged queries whose first page precedes the delete and whose continuation follows it (the tokens carry dataset ids)
+        sess = []
+        for n, mk in enumerate([hq, rq, rq]):
+            starts = list(IDS)
+            rng.shuffle(starts)
+            sess.append(mk("d%d" % n, starts[:rng.range(1, 3)], rng.choice(jpreds), rng.chance(1, 2),
+                           rng.choice([["a", "b"], ["a", "b"], ["b", "a", "px"], None, [d]]), rng.choice([1, 1, 2])))
+        qs.extend(around([DEL(d)], *sess))
         for _ in range(4):
             s_ = rng.choice(IDS)
             p_, inv_, sc_ = rng.choice(jpreds), rng.chance(1, 2), rng.choice(SCOPES)
@@ -492,7 +573,7 @@ def gen_case(rng, nw, nq, full=False):
         starts = list(IDS)
         rng.shuffle(starts)
         qs.append(jq(starts[:2], "*", rng.chance(1, 2), None, 0))
-    return {"datasets": DSN, "ops": ops + qs}
+    return {"datasets": DSN, "proxies": PROXIES, "ops": ops + qs}
 
 
 def gen(rng, tier):
@@ -555,7 +636,7 @@ def attribute(c, o):
     if _UNEXPLAINED.get(k, True):
         return None
     for op in c["ops"]:
-        if op["op"] == "related" and any(d not in c["datasets"] for d in op.get("datasets", [])):
+        if op["op"] == "related" and any(d not in c["datasets"] + c.get("proxies", []) for d in op.get("datasets", [])):
             return "F03b"
     return "F03a"
 
@@ -569,19 +650,22 @@ def _still_unexplained(binp, case):
 def shrink(binp, c, o):
     """smallest sub-case that is still an unexplained spec failure: one query at a time, then drop trailing writes"""
     try:
-        QK = ("related", "jsquery", "httpq", "httpcont")
+        QK = ("related", "jsquery", "httpq", "httpcont", "jsq", "jscont", "httpat", "relq", "relcont")
         writes = [op for op in c["ops"] if op["op"] not in QK]
-        for qop in [op for op in c["ops"] if op["op"] in QK and op["op"] != "httpcont"]:
+        for qop in [op for op in c["ops"] if op["op"] in QK and op["op"] not in ("httpcont", "jscont", "relcont")]:
             if qop.get("at"):
                 continue        # op indices of 'at' refer to the original case
-            qops = [qop] + [op for op in c["ops"] if op["op"] == "httpcont" and qop["op"] == "httpq" and op["id"] == qop["id"]]
-            # a query stays behind the dataset deletes that preceded it
+            conts = [op for op in c["ops"] if op["op"] in ("httpcont", "jscont", "relcont") and qop["op"] in ("httpq", "jsq", "relq") and op["id"] == qop["id"]]
+            # a query stays behind the dataset deletes that preceded it; deletes between its first page and its continuation stay between
             before = c["ops"].index(qop)
+            after = c["ops"].index(conts[0]) if conts else before
             keep = [op for op in writes if op["op"] != "delete_ds" or c["ops"].index(op) < before]
-            cand = {"datasets": c["datasets"], "ops": keep + qops}
+            mid = [op for op in writes if op["op"] == "delete_ds" and before < c["ops"].index(op) < after]
+            qops = [qop] + mid + conts
+            cand = {"datasets": c["datasets"], "proxies": c.get("proxies", []), "ops": keep + qops}
             bad, o2 = _still_unexplained(binp, cand)
             if bad:
-                cand2 = {"datasets": c["datasets"], "ops": [op for op in keep if op["op"] != "refkeys"] + qops}
+                cand2 = {"datasets": c["datasets"], "proxies": c.get("proxies", []), "ops": [op for op in keep if op["op"] != "refkeys"] + qops}
                 bad2, o3 = _still_unexplained(binp, cand2)
                 return (cand2, o3) if bad2 else (cand, o2)
     except Exception:
@@ -612,7 +696,17 @@ def classify(c, o):
 
 def tags(c, o):
     t = ["writes=%d" % len(_hist(c))]
-    nq = [op for op in c["ops"] if op["op"] in ("related", "jsquery", "httpq")]
+    nq = [op for op in c["ops"] if op["op"] in ("related", "jsquery", "httpq", "jsq", "httpat", "relq")]
+    if any(op.get("resend") for op in c["ops"]):
+        t.append("http-resend-original-document")
+    if any(op["op"] == "relq" for op in c["ops"]):
+        t.append("continuation-across-dataset-delete")
+    if any(op["op"] == "httpat" for op in c["ops"]):
+        t.append("http-tokens-at-commit-times")
+    if any(op["op"] == "jsq" for op in c["ops"]):
+        t.append("job-pagedquery-continued")
+    if any("px" in (op.get("datasets") or []) for op in c["ops"]):
+        t.append("proxy-scope")
     if any(op["op"] == "delete_ds" for op in c["ops"]):
         t.append("has-dataset-delete")
     if any(op["op"] == "jsquery" for op in c["ops"]):
